@@ -392,40 +392,45 @@ def check_memo_keys(model: RepoModel, rep, RID: str, rels: Iterable[str], declar
 def check_attr_reset_granularity(model: RepoModel, rep, RID: str, rels: Iterable[str]) -> int:
     """G5: state kept on the object (`self.A`) that a method reads AFTER one of its loops -- to persist or return what the iterations
     gathered -- must not be re-created inside that loop: `self.A = <fresh object>` per iteration resets it at the wrong granularity and
-    only what the last iteration gathered survives.  Instances: every `self.A = <constructor call or empty literal>` inside a loop;
-    it holds when `self.A` is not read after the loop in that method (a genuine per-iteration budget/scratch object)."""
+    only what the last iteration gathered survives.  Instances: every attribute of self read after a loop whose body calls methods of
+    self (the iterations can feed it); it holds when no `self.A = <constructor call or empty literal>` sits inside that loop."""
     n = 0
     for rel in rels:
         mod = model.module(rel)
         for f in mod.all_funcs():
             if f.cls is None:
                 continue
-            for L in walk_no_nested(f.node):
-                if not isinstance(L, (ast.For, ast.While)):
+            loops = sorted((L for L in walk_no_nested(f.node) if isinstance(L, (ast.For, ast.While))), key=lambda L: L.lineno)
+            for ordinal, L in enumerate(loops, 1):
+                if not any(isinstance(c, ast.Call) and isinstance(c.func, ast.Attribute) and isinstance(c.func.value, ast.Name) and c.func.value.id == "self"
+                           for c in ast.walk(L)):
                     continue
+                after: Dict[str, ast.AST] = {}
+                for x in walk_no_nested(f.node):
+                    if isinstance(x, ast.Attribute) and isinstance(x.value, ast.Name) and x.value.id == "self" and isinstance(x.ctx, ast.Load) \
+                            and x.lineno > L.end_lineno and not any(x is y for y in ast.walk(L)):
+                        after.setdefault(x.attr, x)
+                fresh: Dict[str, ast.Assign] = {}
                 for st in ast.walk(L):
-                    if not isinstance(st, ast.Assign):
-                        continue
-                    for tg in st.targets:
-                        if not (isinstance(tg, ast.Attribute) and isinstance(tg.value, ast.Name) and tg.value.id == "self"):
-                            continue
-                        v = st.value
-                        fresh = _is_empty_collection(v) or (isinstance(v, ast.Call) and isinstance(v.func, ast.Name) and v.func.id[:1].isupper()
-                                                            and not any(isinstance(x, ast.Attribute) and x.attr == tg.attr for x in ast.walk(v)))
-                        if not fresh:
-                            continue
-                        n += 1
-                        ordinal = sorted(x.lineno for x in walk_no_nested(f.node) if isinstance(x, (ast.For, ast.While))).index(L.lineno) + 1
-                        key = f"{rel}::{f.qualname}::`self.{tg.attr} = {norm(v)[:40]}` inside loop #{ordinal}::not what the method hands on after the loop"
-                        after = [x for x in walk_no_nested(f.node) if isinstance(x, ast.Attribute) and x.attr == tg.attr and isinstance(x.value, ast.Name)
-                                 and x.value.id == "self" and isinstance(x.ctx, ast.Load) and x.lineno > L.end_lineno]
-                        if after:
-                            rep.violation(RID, key, rel, st.lineno,
-                                          f"{f.qualname} re-creates `self.{tg.attr}` in every iteration of the loop at line {L.lineno} and reads it after the "
-                                          f"loop (line {after[0].lineno}, `{norm(enclosing_stmt_text(f.node, after[0]))[:90]}`): what the earlier "
-                                          f"iterations gathered there is thrown away, only the last iteration's content is handed on")
-                        else:
-                            rep.holds(RID, key, rel, st.lineno, "per-iteration object: not read after the loop in this method")
+                    if isinstance(st, ast.Assign):
+                        for tg in st.targets:
+                            if isinstance(tg, ast.Attribute) and isinstance(tg.value, ast.Name) and tg.value.id == "self":
+                                v = st.value
+                                if _is_empty_collection(v) or (isinstance(v, ast.Call) and isinstance(v.func, ast.Name) and v.func.id[:1].isupper()
+                                                               and not any(isinstance(x, ast.Attribute) and x.attr == tg.attr for x in ast.walk(v))):
+                                    fresh[tg.attr] = st
+                for attr, use in sorted(after.items()):
+                    # only state objects: attributes that are called upon or whose members are read (`self.A.m()`, `self.A.b`)
+                    n += 1
+                    key = f"{rel}::{f.qualname}::`self.{attr}` read after loop #{ordinal}::not re-created inside the loop"
+                    if attr in fresh:
+                        st = fresh[attr]
+                        rep.violation(RID, key, rel, st.lineno,
+                                      f"{f.qualname} re-creates `self.{attr}` in every iteration of the loop at line {L.lineno} (`{norm(st)[:60]}`) and reads it "
+                                      f"after the loop (line {use.lineno}, `{norm(enclosing_stmt_text(f.node, use))[:90]}`): what the earlier "
+                                      f"iterations gathered there is thrown away, only the last iteration's content is handed on")
+                    else:
+                        rep.holds(RID, key, rel, use.lineno, "created outside the loop")
     return n
 
 
